@@ -15,6 +15,8 @@ freedom so that the rules see one spelling:
 * ``if a: if b: X`` -> ``if a and b: X`` (no else branches);  a loop body ``if c: continue; REST`` -> ``if not c: REST``
 * ``x = x + 1`` -> ``x += 1`` (name target, integer constant);  ``x += [y]`` -> ``x.append(y)``;  ``list()`` / ``dict()`` -> ``[]`` / ``{}``
 * inside functions ``x: T = e`` -> ``x = e`` for a plain local
+* ``for v in E: yield v`` -> ``yield from E``;  ``t = E; <statement reading t once in its header>`` -> the statement with ``E`` in
+  place of ``t`` when ``t`` occurs nowhere else in the function
 * ``t = E; return t`` -> ``return E`` when ``t`` is a plain local that no nested function or lambda refers to
 
 Line numbers are kept (``copy_location``), so reports still point at the source.
@@ -169,11 +171,33 @@ class Canon(ast.NodeTransformer):
 
     # -- statement lists: t = E; return t  ->  return E
     def _stmts(self, stmts: List[ast.stmt]) -> List[ast.stmt]:
+        stmts = [self._yield_loop(st) for st in stmts]
         out: List[ast.stmt] = []
         i = 0
         while i < len(stmts):
             st = stmts[i]
             nxt = stmts[i + 1] if i + 1 < len(stmts) else None
+            # t = E; <statement whose header reads t exactly once>  ->  the statement with E in place of t   (t used nowhere else)
+            if isinstance(st, ast.Assign) and len(st.targets) == 1 and isinstance(st.targets[0], ast.Name) and nxt is not None and self._name_count.get(st.targets[0].id, 0) == 2 \
+                    and st.targets[0].id not in self._captured and not isinstance(st.value, (ast.Yield, ast.YieldFrom, ast.Await)):
+                header = self._header_of(nxt)
+                if header is not None:
+                    hits = [n for h in header for n in ast.walk(h) if isinstance(n, ast.Name) and n.id == st.targets[0].id and isinstance(n.ctx, ast.Load)]
+                    inside_closure = any(isinstance(c, (ast.GeneratorExp, ast.ListComp, ast.SetComp, ast.DictComp, ast.Lambda)) and any(x is hits[0] for x in ast.walk(c))
+                                         for h in header for c in ast.walk(h)) if len(hits) == 1 else True
+                    # only a whole test / a direct operand of an `and`/`or` test is put back (the inverse of naming a condition)
+                    direct = len(hits) == 1 and isinstance(nxt, ast.If) and (nxt.test is hits[0] or (isinstance(nxt.test, ast.BoolOp) and any(v is hits[0] for v in nxt.test.values))
+                                                                               or (isinstance(nxt.test, ast.UnaryOp) and nxt.test.operand is hits[0]))
+                    if len(hits) == 1 and not inside_closure and direct:
+                        name, val = st.targets[0].id, st.value
+
+                        class _Sub(ast.NodeTransformer):
+                            def visit_Name(self, node):
+                                return ast.copy_location(copy.deepcopy(val), node) if node.id == name and isinstance(node.ctx, ast.Load) else node
+
+                        self._sub_header(nxt, _Sub())
+                        i += 1
+                        continue
             if isinstance(st, (ast.Assign, ast.AnnAssign)) and isinstance(nxt, ast.Return) and isinstance(nxt.value, ast.Name) and st.value is not None:
                 tgt = st.targets[0] if isinstance(st, ast.Assign) and len(st.targets) == 1 else (st.target if isinstance(st, ast.AnnAssign) else None)
                 if isinstance(tgt, ast.Name) and tgt.id == nxt.value.id and tgt.id not in self._captured:
@@ -185,6 +209,31 @@ class Canon(ast.NodeTransformer):
         return out
 
     _captured: set = set()
+    _name_count: dict = {}
+
+    @staticmethod
+    def _header_of(st: ast.stmt):
+        """expressions evaluated first (and once) when the statement starts"""
+        if isinstance(st, ast.If):
+            return [st.test]
+        if isinstance(st, ast.Return) and st.value is not None:
+            return [st.value]
+        return None  # locals feeding assignments / calls are kept: they name intermediate results the rules refer to
+
+    @staticmethod
+    def _sub_header(st: ast.stmt, sub: ast.NodeTransformer) -> None:
+        if isinstance(st, ast.If):
+            st.test = sub.visit(st.test)
+        elif isinstance(st, (ast.Return, ast.Expr, ast.Assign)):
+            st.value = sub.visit(st.value)
+
+    @staticmethod
+    def _yield_loop(st: ast.stmt) -> ast.stmt:
+        """for v in E: yield v  ->  yield from E"""
+        if isinstance(st, ast.For) and not st.orelse and isinstance(st.target, ast.Name) and len(st.body) == 1 and isinstance(st.body[0], ast.Expr) and isinstance(st.body[0].value, ast.Yield) \
+                and isinstance(st.body[0].value.value, ast.Name) and st.body[0].value.value.id == st.target.id:
+            return ast.copy_location(ast.Expr(value=ast.copy_location(ast.YieldFrom(value=st.iter), st)), st)
+        return st
 
     def visit_FunctionDef(self, node: ast.FunctionDef):
         # names that may be read after the function returned (closures) or that are not locals: never inlined
@@ -198,11 +247,18 @@ class Canon(ast.NodeTransformer):
                     if isinstance(m, ast.Name):
                         cap.add(m.id)
         self._captured = cap
+        saved_nc = self._name_count
+        nc: dict = {}
+        for n in ast.walk(node):
+            if isinstance(n, ast.Name):
+                nc[n.id] = nc.get(n.id, 0) + 1
+        self._name_count = nc
         self._fdepth += 1
         self.generic_visit(node)
         self._fdepth -= 1
         node.body = self._stmts(node.body)
         self._captured = saved
+        self._name_count = saved_nc
         return node
 
     visit_AsyncFunctionDef = visit_FunctionDef
